@@ -1,10 +1,10 @@
 #!/bin/bash
 # tools/seed_confirm.sh <Cxx> <seed-name>   — confirm a sub-agent's seeded defect in its scratch worktree and keep it under /verif/seeded/
 set -u
-P=$1; NAME=$2; W=/tmp/seedwork/$P; WT=$W/wt; OUT=$W/out
+P=$1; NAME=$2; W=${SEEDWORK:-/tmp/seedwork}/$P; WT=$W/wt; OUT=$W/out
 D=/verif/seeded/$NAME; mkdir -p $D
 cd $WT || exit 2
-git stash -q; git apply --check $OUT/patch.diff; AP=$?; git stash pop -q
+git checkout -q -- . ; git apply --check $OUT/patch.diff; AP=$?; git apply $OUT/patch.diff   # (no git stash: the stash is shared between worktrees)
 echo "patch applies to pristine: rc=$AP"
 T0=$(date +%s)
 PYTHONPATH=$WT /venv/bin/python -m pytest -q -p no:cacheprovider --timeout=900 tests 2>&1 | tail -1 > $D/suite_with_patch.txt
